@@ -30,6 +30,7 @@ type SCTP struct {
 	eof    bool
 	rerr   error
 	Closed bool
+	DeadReads int // reads answered with the terminal condition (EOF / read error)
 	NClose int
 	Writes []SCTPWrite
 	NoInfo bool // deliver chunks without SndRcvInfo (socket not subscribed to data io events)
@@ -83,6 +84,14 @@ func (s *SCTP) SCTPRead(b []byte) (int, *sctp.SndRcvInfo, error) {
 			return n, nil, nil
 		}
 		return n, &sctp.SndRcvInfo{Stream: st}, nil
+	}
+	// the association is gone: a reader that keeps coming back for more is polling a dead socket
+	// (a livelock in real time); after a few such reads the caller is parked until Close, so the
+	// execution ends and the checks can see DeadReads
+	s.DeadReads++
+	if s.DeadReads > 8 {
+		vs.BlockObj("sctp.read.polling-a-dead-association:"+s.Name, s, func() bool { return s.Closed })
+		return 0, nil, ErrClosed
 	}
 	if s.rerr != nil {
 		return 0, nil, s.rerr
